@@ -112,7 +112,30 @@ def gen_cases(ctx):
         shots = rng.choice([1, 2, 5, 16, 40])
         qs = rng.sample(range(n), rng.randrange(0, n + 1))
         mk("measure_n", n, entangled(rng, n, "random"), rng.choice(["C", "X", "Y"]), qs, shots=shots, draws=[float2bits(rng.choice(grid[:-1])) for _ in range(shots)])
+    # shot counts that no worker count divides, under the default pool and under small pools: exactly n results, always
+    for shots, pool in ((33, None), (47, None), (100, None), (9, 4), (13, 3), (31, 5), (64, 6)):
+        n = rng.randrange(1, 3)
+        qs = rng.sample(range(n), rng.randrange(0, n + 1))
+        kw = {"pool": pool} if pool else {}
+        mk("measure_n", n, entangled(rng, n, "random"), rng.choice(["C", "X"]), qs, shots=shots, draws=[float2bits(rng.choice(grid[:-1])) for _ in range(shots)], **kw)
     mk("measure_n", 2, entangled(rng, 2, "random"), "C", [0], shots=0, draws=[])
+    # nearly certain outcomes: the other outcomes have total probability 1e-10 .. 1e-7, far above zero in double precision;
+    # the collapse must still remove them exactly (and collapse an entangled partner)
+    for n in (1, 2, 3):
+        for e in (3e-4, 1e-4, 2e-5):
+            dim = 1 << n
+            v = [0.0] * (2 * dim); k0 = rng.randrange(dim); k1 = k0 ^ (1 << rng.randrange(n))
+            ph = rng.uniform(0, 6.28)
+            v[2 * k0] = math.sqrt(1 - e * e); v[2 * k1] = e * math.cos(ph); v[2 * k1 + 1] = e * math.sin(ph)
+            vb = [float2bits(x) for x in v]
+            mk("measure", n, vb, "C", [], draw=float2bits(0.3)); mk("measure", n, vb, "C", [(k0 ^ k1).bit_length() - 1], draw=float2bits(0.6))
+            mk("repeat", n, vb, "C", [], draw=float2bits(0.4), draws=[float2bits(x) for x in [1e-9, 0.25, 0.5, 0.75, 1 - 1e-9]])
+        # ... and in the X basis: a state within 1e-4 of |+..+>
+        hs = [1 / math.sqrt(1 << n)] * (1 << n); hs[0] += 2e-4
+        nrm = math.sqrt(sum(x * x for x in hs))
+        vx = []
+        for x in hs: vx += [x / nrm, 0.0]
+        mk("measure", n, [float2bits(x) for x in vx], "X", [], draw=float2bits(0.5))
     return cases
 
 def cq_mimpl(r):
